@@ -60,8 +60,12 @@ def materialise(cfg):
 def make_manager(c):
     """mirror of manager._run_manager_from_cli_worker's loading path through the public setters"""
     from ghedesigner.manager import GHEManager
+    return configure(GHEManager(), c)
+
+
+def configure(g, c):
+    """every public setter, in the command-line order, on a manager that may have been configured (and used) before"""
     from ghedesigner.enums import BHPipeType, DesignGeomType
-    g = GHEManager()
     g.set_fluid(**c["fluid"])
     g.set_grout(**c["grout"])
     g.set_soil(**c["soil"])
@@ -124,6 +128,8 @@ def summarise(g, with_series=False):
         "field_type": ghe.fieldType,
         "m_flow_borehole": ghe.bhe.m_flow_borehole,
         "fluid_rho": float(ghe.bhe.fluid.rho),
+        "simulated_months": int(ghe.sim_params.end_month - ghe.sim_params.start_month + 1),
+        "hybrid_axis_end_h": float(ghe.hybrid_load.hour[-1]),
         "rb": ghe.bhe.calc_effective_borehole_resistance(),
     }
     if hasattr(s, "coordinates_domain"):
@@ -152,7 +158,19 @@ def run(cfg, outdir=None, with_series=False):
     t0 = time.time()
     res = {"ok": False}
     try:
-        g = make_manager(c)
+        if c.get("_first_configured_with"):
+            # the same manager object used for an earlier study (other values), then configured again for this one
+            first = json.loads(json.dumps(c))
+            for sec, kv in c["_first_configured_with"].items():
+                first[sec].update(kv)
+            g = make_manager(first)
+            try:
+                g.find_design()
+            except ValueError:
+                pass
+            configure(g, c)
+        else:
+            g = make_manager(c)
         g.find_design()
         res = summarise(g, with_series)
         res["ok"] = True
@@ -342,6 +360,18 @@ def run_history(c):
         g4c.set_design(flow_rate=cfg["design"]["flow_rate"], flow_type_str=cfg["design"]["flow_type"])
         g4c.find_design()
         variants["input_corrected_then_set_design_again"] = result_key(g4c, os.path.join(tmp, "v5c"))
+        # 5d. a manager used for another study first (other horizon, other limits), then configured again for this one
+        study1 = json.loads(json.dumps(cfg))
+        study1["simulation"]["num_months"] = 12 if cfg["simulation"]["num_months"] != 12 else 36
+        study1["design"]["max_eft"] = cfg["design"]["max_eft"] - 3.0
+        g4d = make_manager(study1)
+        try:
+            g4d.find_design()
+        except ValueError:
+            pass
+        configure(g4d, cfg)
+        g4d.find_design()
+        variants["manager_reconfigured_after_another_study"] = result_key(g4d, os.path.join(tmp, "v5d"))
         # 6. set_design called twice, find_design after re-setting the design
         g5 = make_manager(cfg)
         g5.set_design(flow_rate=cfg["design"]["flow_rate"], flow_type_str=cfg["design"]["flow_type"])
